@@ -51,7 +51,9 @@ class Hist:
         self.objs = []
         self.bad = []
         self.nv = 4
+        self.force_int = False
         self.cur = self.make(tuple(shape))
+        self.bystander = self.make(tuple(shape))          # an unrelated object of the same class, dimension and shape (G3)
         self.objs.append(self.cur)
 
     # ---- construction from caller-supplied arrays (kept, and watched)
@@ -59,11 +61,20 @@ class Hist:
         self.inputs.append((name, arr, arr.copy()))
         return arr
 
-    def rescale(self, proj):
+    def rescale(self, proj, unit_rank=2):
         """another representative of the same projective points: every row times its own non-zero factor of either sign (powers of two, so
         that exactly null rows stay exactly null)"""
         g = self.g
         f = g.choice([0.25, 0.5, 1.0, 2.0, 4.0], proj.shape[:-1] + (1,)) * g.choice([-1.0, 1.0], proj.shape[:-1] + (1,))
+        if g.random() < 0.35:
+            us = O.unit_scale(g, proj.shape[:-unit_rank])                       # one homogeneous factor per unit, 1e-12 .. 1e12
+            if unit_rank == 2:
+                # (not for units with an ideal row: in-place normalisation later rescales the other rows only, and the library's quadratic for
+                #  the ideal endpoints cancels catastrophically when the two endpoints differ in scale by 1e12 -- conditioning, not logic)
+                nn = -proj[..., 0] ** 2 + np.sum(proj[..., 1:] ** 2, axis=-1)
+                has_null = np.any(np.abs(nn) < 1e-9 * np.sum(proj ** 2, axis=-1), axis=-1)
+                us = np.where(has_null, 1.0, us)
+            f = f * us.reshape(us.shape + (1,) * unit_rank)
         return proj * f
 
     NULLS = [(1, -1, 0), (1, 0, 1), (1, 0, -1), (5, 3, 4), (5, -3, 4), (5, 4, -3), (5, -4, -3), (13, 5, 12), (13, -12, 5), (17, 8, -15), (5, 3, -4)]
@@ -99,6 +110,10 @@ class Hist:
         g, n, kind = self.g, self.n, self.kind
         shape = tuple(shape)
         style = g.random()
+        if kind != "ppolygon" and (self.force_int or g.random() < 0.12):
+            obj = self.make_int(shape)
+            if obj is not None:
+                return obj
         if kind == "ppolygon":
             d = g.normal(size=shape + (self.nv, n + 1))
             if np.iscomplexobj(np.zeros(1, dtype=self.dtype)):
@@ -153,10 +168,49 @@ class Hist:
             k = self.supply("tan_point", O.klein(g, shape, n))
             v = self.supply("tan_vector", g.normal(size=shape + (n + 1,)))
             return H.TangentVector(H.Point(k, model="klein"), v)
-        p = self.rescale(self.pts(shape))
+        p = self.rescale(self.pts(shape), unit_rank=1)
         v = g.normal(size=shape + (n + 1,))
         raw = self.supply("tan_proj", np.stack([p, v], axis=-2))
         return H.TangentVector(raw)
+
+    def make_int(self, shape):
+        """the same classes with INTEGER-typed primary data (derived data is not integral): dtype must never leak from one block to the other"""
+        g, n, kind = self.g, self.n, self.kind
+        rows = 2 if kind != "polygon" else self.nv
+        for _ in range(40):
+            raw = np.zeros(shape + (rows, n + 1), dtype=np.int64)
+            raw[..., 0] = g.integers(4, 8, size=shape + (rows,))
+            raw[..., 1:] = g.integers(-2, 3, size=shape + (rows, n))
+            if kind == "tangent":
+                raw[..., 1, :] = g.integers(-3, 4, size=shape + (n + 1,))
+            kk = raw[..., 1:] / raw[..., :1]
+            if kind == "tangent":
+                ok = np.all(np.abs(raw[..., 1, 1:]).sum(axis=-1) > 0)
+            else:
+                dist = np.linalg.norm(kk[..., :, None, :] - kk[..., None, :, :], axis=-1) + 10 * np.identity(rows)
+                ok = dist.min() > 0.2
+            with np.errstate(all="ignore"):
+                ref = self.reference_aux(raw)
+            if ok and kind == "segment":
+                J = np.diag([-1.0] + [1.0] * n)
+                d = (raw[..., 0, :] - raw[..., 1, :]).astype(float)
+                ok = np.all(np.abs(np.einsum("...i,ij,...j->...", d, J, d)) > 0.5)          # x1 - x2 not lightlike (the library divides by it)
+            if ok and kind == "polygon":
+                keep, self.kind = self.kind, "segment"
+                with np.errstate(all="ignore"):
+                    ref = self.reference_aux(ref)           # the ideal endpoints of every edge
+                self.kind = keep
+                if np.all(np.isfinite(ref)):
+                    J = np.diag([-1.0] + [1.0] * n)
+                    e = raw.astype(float)
+                    d = e - np.roll(e, -1, axis=-2)
+                    ok = np.all(np.abs(np.einsum("...i,ij,...j->...", d, J, d)) > 0.5)      # v_k - v_{k+1} not lightlike (the library divides by it)
+            if ok and np.all(np.isfinite(ref)) and np.abs(ref).max() < 1e6 and np.all(np.abs(ref).max(axis=-1) > 1e-6):
+                self.supply("int_proj", raw)
+                cls = {"polygon": H.Polygon, "segment": H.Segment, "tangent": H.TangentVector}[kind]
+                with np.errstate(all="ignore"):
+                    return cls(raw)
+        return None
 
     def reference_aux(self, proj):
         """derived data from primary data by an independent few-line reference (not the library's _compute_aux_data)"""
@@ -245,6 +299,17 @@ class Hist:
                 self.bad.append({"what": "aux_stale", "why": why, "after": opname, "step": step, "object": j, "is_current": o is self.cur,
                                  "expected": "aux_data ~ type(obj)(obj.proj_data).aux_data ~ reference derived data of proj_data, also through the accessors"})
                 return False
+        # G1 / G2: every object answers its queries as a fresh object with the same primary data does, also after the arrays it handed out
+        # were overwritten; G3: so does an unrelated object of the same class that was never part of the history
+        pick = [self.cur, self.objs[int(self.g.integers(0, len(self.objs)))], self.bystander]
+        for j, o in enumerate(pick):
+            if np.issubdtype(np.asarray(o.proj_data).dtype, np.integer) and self.kind == "tangent":
+                continue
+            why = O.fresh_diff(self.kind, o, self.n, max(self.tol, 1e-6), mutate=(step % 2 == 0))
+            if why:
+                self.bad.append({"what": "differs_from_fresh_object", "why": why, "after": opname, "step": step, "bystander": o is self.bystander,
+                                 "expected": "every query on an object with a history = the same query on a fresh object with the same primary data"})
+                return False
         for name, arr, snap in self.inputs:
             if not np.array_equal(arr, snap):
                 if not (rows_pos_eq(arr, snap) if name == "tan_vector" else O.rows_proj_eq(arr, snap, 1e-9)):
@@ -304,8 +369,9 @@ class Hist:
                 if older:
                     T = older[int(g.integers(0, len(older)))]
                     keep, self.nv = self.nv, int(np.asarray(T.proj_data).shape[-2])
+                    self.force_int = np.issubdtype(np.asarray(T.proj_data).dtype, np.integer)
                     V = self.make(tuple(T.shape)[1:])
-                    self.nv = keep
+                    self.nv, self.force_int = keep, False
                     T[int(g.integers(0, T.shape[0]))] = V if g.random() < 0.5 else np.array(V.proj_data)
                     self.objs.append(V)
                     return self.check_all(step, "setitem_on_earlier_object")
@@ -331,12 +397,16 @@ class Hist:
                     key, vshape = Ellipsis, (shape if g.random() < 0.5 else shape[1:])      # everything at once
             else:
                 key, vshape = Ellipsis, ()
+            self.force_int = np.issubdtype(np.asarray(X.proj_data).dtype, np.integer)
             V = self.make(vshape)
+            self.force_int = False
             c = g.random()
             if c < 0.4:
                 val = V                                     # an object
             elif c < 0.8:
                 val = self.supply("setitem_value", np.array(V.proj_data))      # a raw array of primary data
+            elif np.issubdtype(np.asarray(X.proj_data).dtype, np.integer):
+                val = V                                     # (floats assigned into integer data would be truncated by numpy itself)
             else:
                 val = self.iso() @ V
             X[key] = val
@@ -433,10 +503,10 @@ class Hist:
             warnings.simplefilter("ignore")
             try:
                 if q == "coords":
-                    for m in ("klein", "projective"):
+                    for m in (("projective",) if kind == "tangent" else ("klein", "projective")):
                         X.coords(m)
                     pts = H.Point(X)           # shares nothing? (copy of proj_data) -- then every model, incl. the in-place hyperboloid one
-                    for m in O.MODELS:
+                    for m in (("projective", "hyperboloid") if kind == "tangent" else O.MODELS):
                         pts.coords(m)
                     extra.append(pts)
                 elif q == "p_edges":
@@ -503,7 +573,7 @@ class Hist:
                 elif q == "endpoint_origin_to":
                     a, b = X.get_end_pair(as_points=True)
                     a.origin_to()
-                    a.unit_tangent_towards(b)
+                    b.origin_to()
                 elif q == "normalized":
                     X.normalized()
                 elif q == "origin_to":
@@ -932,7 +1002,7 @@ def clauses():
                     "after every step composite shape, proj_data and aux_data of the implementation vs the Lean state machine Obj.step / Obj.afterQuery executed over Q "
                     "(data chosen so that every square root the library takes is rational; segments with interior/ideal endpoints in every combination and representatives of either sign)"),
         Clause("history_oracle", "oracle", gen_hist, run_hist, judge_hist, site="projective.ProjectiveObject (set/copy/apply/reshape/flatten/__getitem__/__setitem__/stack/combine/astype) + queries",
-               budget={"quick": 320, "thorough": 30000},
+               budget={"quick": 210, "thorough": 30000},
                what="histories over {copy, apply, reshape, flatten, index, set item, stack, combine, astype} on polygons, segments, tangent vectors of shapes (), (2,), (2,3) "
                     "interleaved with read-only queries (random depth <= 8 in quick; in thorough EVERY history of depth <= 4 over {apply, reshape, flatten, index, set item, stack, combine} "
                     "with copy/astype inserted at random): "
